@@ -106,8 +106,11 @@ class Build:
         """extraction + OCaml driver"""
         odir, cdir = self.root + '/ocaml', self.root + '/coq'
         api = cdir + '/Extract/Api.vo'
-        if not os.path.exists(api):
-            return False, 'Extract/Api.vo missing (model does not compile)'
+        # the executable model must be the one the current sources define: a stale Api.vo (its own source or a file it
+        # depends on no longer compiles) would silently run yesterday's model
+        rc, out = sh('timeout 3000 make -j%d Extract/Api.vo 2>&1' % NPROC, cwd=cdir, timeout=3100)
+        if rc != 0 or not os.path.exists(api):
+            return False, 'Extract/Api.vo does not build (the executable model does not compile):\n' + out[-3000:]
         need = newer(api, odir + '/model.ml')
         if need:
             rc, out = sh(['coqc', '-Q', '../coq', 'Sia', '../coq/Extract/Extract.v'], cwd=odir, timeout=1200)
